@@ -49,6 +49,11 @@ std::vector<Clause> buildClauses() {
     add("makeGlobal/aniso-size", "invalid_argument", true, any, [](TasmanianSparseGrid &g, Rng &r) { g.makeGlobalGrid(2, 1, 2, r.chance(0.5) ? type_iptotal : type_ipcurved, rule_leja, std::vector<int>{1, 2, 3}); });
     add("makeGlobal/limits-size", "invalid_argument", true, any, [](TasmanianSparseGrid &g, Rng &) { g.makeGlobalGrid(2, 1, 2, type_level, rule_leja, std::vector<int>(), 0.0, 0.0, nullptr, std::vector<int>{1}); });
     add("makeGlobal/custom-file-missing", "runtime_error", true, any, [](TasmanianSparseGrid &g, Rng &) { g.makeGlobalGrid(2, 1, 2, type_level, rule_customtabulated, std::vector<int>(), 0.0, 0.0, "/simfs/no-such-rule.table"); });
+    // Gauss-Patterson nodes are tabulated for 9 levels only; a deeper request is refused (boundary: the first level beyond the table)
+    add("makeGlobal/gauss-patterson-depth", "runtime_error", true, any, [](TasmanianSparseGrid &g, Rng &r) { g.makeGlobalGrid(r.range(1, 2), 1, r.pick<int>({9, 9, 10, 12}), type_level, rule_gausspatterson); });
+    add("makeGlobal/gauss-patterson-depth-tensor", "runtime_error", true, any, [](TasmanianSparseGrid &g, Rng &r) { g.makeGlobalGrid(1, 0, r.pick<int>({9, 11}), type_tensor, rule_gausspatterson); });
+    add("updateGlobal/gauss-patterson-depth", "runtime_error", true, [](const TasmanianSparseGrid &g) { return g.isGlobal() && g.getRule() == rule_gausspatterson && !g.isUsingConstruction(); },
+        [](TasmanianSparseGrid &g, Rng &r) { g.updateGlobalGrid(r.pick<int>({9, 9, 10}), type_level, std::vector<int>(), std::vector<int>((size_t)g.getNumDimensions(), -1)); }); // explicit "no limits": stored limits could keep the levels inside the table
     add("makeSequence/dims", "invalid_argument", true, any, [](TasmanianSparseGrid &g, Rng &) { g.makeSequenceGrid(0, 1, 2, type_level, rule_leja); });
     add("makeSequence/outputs", "invalid_argument", true, any, [](TasmanianSparseGrid &g, Rng &) { g.makeSequenceGrid(2, -2, 2, type_level, rule_leja); });
     add("makeSequence/depth", "invalid_argument", true, any, [](TasmanianSparseGrid &g, Rng &) { g.makeSequenceGrid(2, 1, -1, type_level, rule_leja); });
